@@ -898,3 +898,55 @@ impl Scenario for C01Cycles {
         Ok(())
     }
 }
+
+
+/// replays a fixed document (a known finding recorded as literal input): k plain load/write cycles with O1-O3
+pub struct C01FixedInput;
+
+impl Scenario for C01FixedInput {
+    fn property(&self) -> &'static str {
+        "C01"
+    }
+    fn name(&self) -> &'static str {
+        "fixed_input_cycles"
+    }
+    fn run(&self, cx: &mut Cx) -> Result<(), Violation> {
+        let Some(text) = crate::runner::FIXED_INPUT.read().unwrap().clone() else {
+            cx.vacuous = true;
+            return Ok(());
+        };
+        if text.matches("/begin A2ML").count() >= 2 {
+            cx.trigger("more-than-one-a2ml-definition-active");
+        }
+        cx.event_lazy("fixed input", || text.clone());
+        let mut model = match sut::load_str(cx, "O1", &text, None, false)? {
+            Ok((m, _)) => m,
+            Err(e) => {
+                cx.vacuous = true;
+                cx.event(&format!("input not accepted: {e}"));
+                return Ok(());
+            }
+        };
+        let mut prev: Option<String> = None;
+        for cycle in 1..=3 {
+            let w = sut::write_str(cx, "no-panic", &model)?;
+            cx.event_lazy(&format!("cycle {cycle}: save"), || w.clone());
+            if let Some(p) = &prev {
+                if *p != w {
+                    return Err(cx.fail("O3", "text-not-a-fixpoint", format!("cycle {cycle}: {}", sut::first_diff(p, &w))));
+                }
+            }
+            let m2 = match sut::load_str(cx, "O1", &w, None, false)? {
+                Ok((m, _)) => m,
+                Err(e) => return Err(cx.fail("O1", "reload-failed", format!("cycle {cycle}: {e}"))),
+            };
+            if m2 != model {
+                return Err(cx.fail("O2", "reloaded-model-differs", format!("cycle {cycle}: load(write(M)) != M: {}", model_diff(&model, &m2))));
+            }
+            model = m2;
+            prev = Some(w);
+        }
+        cx.nontrivial = true;
+        Ok(())
+    }
+}
